@@ -337,6 +337,7 @@ def _history_worker(pair):
         paths = []
     for pa in paths:
         if pa.kind != "return":
+            rep.inconc("encoder history %s->%s: path ended with %s %r" % (A.id, B.id, pa.kind, pa.value))
             continue
         r1, r2 = pa.value
         same = r1[0] == r2[0]
